@@ -207,7 +207,8 @@ func bestRules(rules []refRule, host, path string) []refRule {
 			exact = append(exact, ru)
 			continue
 		}
-		l := len(strings.TrimSuffix(ru.path, "/"))
+		// the declared path as written: /app/ is longer than /app
+		l := len(ru.path)
 		if ru.path == "/" {
 			l = 0
 		}
